@@ -865,12 +865,13 @@ def c01n_join(ctx):
 
 
 def c01o(ctx):
-    """Before a stale node is repaired, its transitive firewalls are repaired first — by the callers that are
-    responsible for it: the user's own query and a firewall repair (a firewall has firewalls below it too).  Queries
-    made by an executing node rely on that node's repairer having done it."""
+    """Before a stale node is repaired, its transitive firewalls are repaired first - at least by the user's own query and by a
+    firewall repair (a firewall has firewalls below it too).  (Round 1 froze this as "exactly those two" on the belief
+    that a read made by an executing node can rely on that node's repairer; C01.t shows the belief is wrong for a callee
+    the node did not depend on before, so this clause now only demands the two as a lower bound.)"""
     prog = ctx.prog
     o = ctx.ob("C01.o", "query_for/firewalls-repaired-first-for-user-and-firewall-repair", "K4",
-               "query_for repairs the node's transitive firewalls before taking the write guard exactly for CallerKind::User and CallerKind::RepairFirewall on the Repair path")
+               "query_for repairs the node's transitive firewalls before taking the write guard at least for CallerKind::User and CallerKind::RepairFirewall, on the Repair path")
     cands = [x for x in prog.find(r"^Engine::query_for::\{closure#0\}$") if x.is_coroutine]
     if len(cands) != 1:
         ctx.fail(o, "(program)", "anchor missing: Engine::query_for (found %d)" % len(cands))
@@ -888,14 +889,70 @@ def c01o(ctx):
             continue
         if rep[0].bb in b.reachable_fs([tb]) and b.site_dominates(Site(b, sb, 0), rep[0]):
             allowed.add(_variant_name(prog, c.adt, v))
-    if allowed != {"User", "RepairFirewall"}:
-        ctx.fail(o, rep[0], "the firewalls below a stale node are repaired first for callers of kind %s (must be exactly User and RepairFirewall): a firewall that is itself "
-                 "being repaired would verify itself against unrepaired firewalls below it" % (sorted(allowed) or "none"))
+    if not {"User", "RepairFirewall"} <= allowed or allowed & {"Tracing", "BackwardProjectionPropagation"}:
+        ctx.fail(o, rep[0], "the firewalls below a stale node are repaired first for callers of kind %s (must include User and RepairFirewall, and not the value-less kinds): a firewall "
+                 "that is itself being repaired would verify itself against unrepaired firewalls below it" % (sorted(allowed) or "none"))
+    ctx.shared["query_for_repair_kinds"] = allowed
     if not df.dominated_by_equality(b, rep[0].bb, "eq", lambda x, y: True, prog):
         ctx.fail(o, rep[0], "the firewall repair is not restricted to `slow_path == SlowPath::Repair`")
     # ... and it happens before the node's own write guard is taken, on every path that takes the guard after a stale fast path
     if not b.site_dominates(rep[0], wg[0]) and rep[0].bb not in b.reachable([0], removed_nodes=[wg[0].bb]):
         ctx.fail(o, wg[0], "the write guard can be taken before the firewalls were repaired")
+
+
+def c01t(ctx):
+    """K1.  Dirty marks stop at a firewall; what lies above it is brought up to date by repairing the firewall FIRST (it
+    re-executes, and if its value changed it dirties its callers).  query_for does that for the user's query and for
+    firewall repairs.  A read made by an executing node gets no such repair - sound only if the reader's own repairer has
+    already repaired every firewall below the callee, i.e. if the callee was a recorded dependency.  An executor that reads
+    a stale callee it did NOT depend on before (a branch taken for the first time, a dependency dropped and resumed, a fresh
+    query above an old one) finds no dirty edge on it, verifies it clean and receives its old value."""
+    prog = ctx.prog
+    o = ctx.ob("C01.t", "query_for/firewalls-of-a-callee-read-by-an-executor-are-repaired-first", "K4",
+               "on the Repair path query_for reaches repair_transitive_firewall_callees also for CallerKind::Query callers (an executor's read), before the callee is verified")
+    allowed = ctx.shared.get("query_for_repair_kinds")
+    if allowed is None:
+        ctx.fail(o, "(program)", "anchor missing: C01.o did not resolve the caller kinds that repair firewalls in query_for")
+        return
+    o.sites = len(allowed)
+    if "Query" not in allowed:
+        cands = [x for x in prog.find(r"^Engine::query_for::\{closure#0\}$") if x.is_coroutine]
+        rep = cands[0].calls_to(r"Snapshot<C, Q>>::repair_transitive_firewall_callees$")
+        ctx.fail(o, rep[0], "query_for repairs the firewalls below a stale callee only for callers of kind %s: a callee that an executor reads for the first time (not yet among its "
+                 "recorded dependencies) is verified against unrepaired firewalls and hands out its old value" % sorted(allowed))
+
+
+def c01u(ctx):
+    """K2.  When a firewall's value changes, the projections above it must be re-executed (backward projection) - that is how
+    the change gets past them to their callers.  The need is persisted as a marker stamped with the epoch.  Both sites that
+    decide whether to run the backward projection accept the marker only if its epoch EQUALS the caller's: a marker whose
+    propagation was cancelled, or never started because the firewall was recomputed for a caller that does not run it (a
+    user's direct query, an executor's read), is ignored from the next epoch on and nothing else dirties the projections'
+    callers."""
+    prog = ctx.prog
+    want = (("Snapshot::fast_path", r"Option::<[^>]*>::is_some_and$"), ("Snapshot::get_backward_projection_lock_guard", r"Option::<[^>]*>::is_none_or$"))
+    for fn, combinator in want:
+        o = ctx.ob("C01.u", "%s/pending-backward-projection-is-honoured-in-later-epochs" % fn.split("::")[-1], "K4",
+                   "%s decides on the presence of the pending-backward-projection marker, not on its epoch being the caller's" % fn)
+        b = ctx.touch(prog.coroutine_of(fn))
+        cs = [s for s in b.calls_to(combinator) if any(x.kind == "call" and (x.callee() or "").endswith("::pending_backward_projection") for x in df.origins_of_operand(b, s.node["args"][0]))]
+        o.sites = len(cs)
+        if len(cs) != 1:
+            # the test was restructured: the marker's presence must still be what is tested
+            pend = b.calls_to(r"::pending_backward_projection$")
+            if not pend:
+                ctx.fail(o, Site(b, 0, 0), "anchor missing: %s no longer looks at pending_backward_projection()" % fn)
+            continue
+        clo = [x for x in df.origins_of_operand(b, cs[0].node["args"][1]) if x.kind == "agg" and x.site.node["rv"].get("ak") == "closure"]
+        if len(clo) != 1 or clo[0].site.node["rv"]["def"] not in prog.bodies:
+            continue
+        c = ctx.touch(prog.bodies[clo[0].site.node["rv"]["def"]])
+        eqs = [s for s in c.calls() if re.search(r"core::cmp::PartialEq::(eq|ne)$", s.node["fn"]["path"])]
+        for e in eqs:
+            da, db = df.Desc(c, e.node["args"][0], prog), df.Desc(c, e.node["args"][1], prog)
+            if da.has("CallerInformation::timestamp") or db.has("CallerInformation::timestamp"):
+                ctx.fail(o, e, "%s honours the pending-backward-projection marker only when its epoch equals the caller's: a marker left by a cancelled or never-started "
+                         "propagation is ignored in every later epoch, the projections above the firewall are never re-executed and their callers keep the old value" % fn)
 
 
 def c01p(ctx):
@@ -1095,6 +1152,7 @@ def _variant_name(prog, adt, v):
 
 
 def run(ctx):
+    ctx.shared = getattr(ctx, "shared", {})
     ctx.run_clause("C01.h", c01h)
     ctx.run_clause("C01.k", c01k)
     ctx.run_clause("C01.l", c01l)
@@ -1102,6 +1160,8 @@ def run(ctx):
     ctx.run_clause("C01.n", c01n)
     ctx.run_clause("C01.n", c01n_join)
     ctx.run_clause("C01.o", c01o)
+    ctx.run_clause("C01.t", c01t)
+    ctx.run_clause("C01.u", c01u)
     ctx.run_clause("C01.p", c01p)
     ctx.run_clause("C01.q", c01q)
     ctx.run_clause("C01.r", c01r)
